@@ -47,6 +47,11 @@ ObsChecks(o, lv) ==
 PermColliding(o, perm) == \E i \in Colliding(o) : SeqToSet(o.sets[i].set) = SeqToSet(perm)
 Name(o, perm, n) == IF PermColliding(o, perm) THEN "C19.registry-key-injective" ELSE n
 
+\* the router's own registry tells the truth: a stored route is reported as stored, a refused one changes nothing
+RouteReport(ev) ==
+  << <<"C19.router.stored-route-is-reported", ev.res = "ok" => ev.obs.reported = "same">>,
+     <<"C19.router.refused-route-changes-nothing", ev.res # "ok" => ev.obs.reported = ev.obs.reported_before>> >>
+
 EvChecks(ev) ==
   CASE ev.ev = "create" ->
          << <<Name(ev.obs, ev.args.perm, "C19.create.duplicate-rejected"), SeqToSet(ev.args.perm) \in live => ev.res # "ok">>,
@@ -61,11 +66,11 @@ EvChecks(ev) ==
          \o ObsChecks(ev.obs, IF ev.res = "ok" THEN RemoveNext(live, ev.args.perm) ELSE live)
     [] ev.ev = "route_add" ->
          << <<"C19.router.stores-only-registered-hops", ev.res = "ok" => SeqToSet(ev.args.perm) \in live>>,
-            <<"C19.router.registered-flag", ev.obs.registered = (SeqToSet(ev.args.perm) \in live)>> >>
+            <<"C19.router.registered-flag", ev.obs.registered = (SeqToSet(ev.args.perm) \in live)>> >> \o RouteReport(ev)
     [] ev.ev = "route_add2" ->
          LET h1 == {ev.args.path[1], ev.args.path[2]}  h2 == {ev.args.path[2], ev.args.path[3]} IN
          << <<"C19.router.stores-only-registered-hops", ev.res = "ok" => (h1 \in live /\ h2 \in live)>>,
-            <<"C19.router.registered-flag", ev.obs.registered = <<h1 \in live, h2 \in live>> >> >>
+            <<"C19.router.registered-flag", ev.obs.registered = <<h1 \in live, h2 \in live>> >> >> \o RouteReport(ev)
     [] ev.ev = "route_exec" ->
          << <<"C19.router.executes-only-registered-hops", ev.res = "ok" => SeqToSet(ev.args.perm) \in live>> >>
     [] ev.ev = "reset" -> ObsChecks(ev.obs, {})
